@@ -122,6 +122,8 @@ def solver_descs(kinds=("vi", "pi", "rvi", "pvi", "sa"), allow_shuffle=False, ro
         if kind == "pi":
             p["max_eval_iter"] = draw(st.sampled_from([3, 50, 400]))
             p["reset_values_for_each_policy_eval"] = draw(st.booleans())
+        if draw(st.integers(0, 4)) == 0:
+            p["jax_double_precision"] = False  # (64-bit mode is already on in the worker process: values stay float64)
         if kind == "sa":
             p["shuffle_states"] = draw(st.booleans()) if allow_shuffle else False
             p["random_seed"] = draw(st.integers(0, 99))
